@@ -999,3 +999,87 @@ def run(ctx):
         mg = np.array(decv(toks[tokidx])) + ex
         if not cmp_vec(mg.tolist(), val.tolist(), 1e-8):
             ctx.disagree(key, desc, mg.tolist(), val.tolist(), "gradient differs from the Lean model at the point's current value")
+
+    # ======================================================================= 7. expansion geometries (subclasses of Continuous1D) as DOMAIN / as RANGE
+    # StepExpansion / KLExpansion / KLExpansion_Full / CustomKL subclass Continuous1D but have a non-identity par2fun
+    # and no `gradient`: the closed-form gradient must be REFUSED (`type(geom) in identity list`, not isinstance).
+    # The forward map acts on the function values (dimension p = len(grid)), the parameters have dimension n < p.
+    # If a vector is returned anyway it must be the derivative of the same object's logd (Richardson oracle).
+    def expansion(kind, n, p):
+        grid = np.linspace(0, 1, p)
+        if kind == "Step":
+            return G.StepExpansion(grid, n_steps=n)
+        if kind == "KL":
+            return G.KLExpansion(grid, num_modes=n)
+        if kind == "KLFull":
+            return G.KLExpansion_Full(grid)
+        return G.CustomKL(grid, cov_func=lambda a, b: np.exp(-abs(a - b)), trunc_term=n)
+    EMODELS = ["matrix", "jacobian", "direction-jacobian", "fun+adjoint"]
+    ETARGETS = ["likelihood", "posterior", "multi"]
+    ecases = []
+    for k in range(36 * S):
+        side = "domain" if k % 3 else "range"
+        gk = (["Step", "KL", "KLFull", "CustomKL"] if side == "domain" else ["Step", "KL"])[(k // 3) % (4 if side == "domain" else 2)]
+        mk = EMODELS[(k // 2) % len(EMODELS)]
+        tgt = ETARGETS[(k // 5) % len(ETARGETS)]
+        fd = (k % 9 == 4)
+        ecases.append((side, gk, mk, tgt, fd))
+    for side, gk, mk, tgt, fd in ecases:
+        n = rng.choice([2, 3]); p = n * rng.choice([2, 3]); m = rng.choice([1, 2, 3])
+        desc = {"expansion": gk, "side": side, "model": mk, "target": tgt, "fd": fd, "n_par": n, "n_fun": p, "m": m}
+        ctx.case(f"expansion-{side}", desc)
+        try:
+            with quiet():
+                eg = expansion(gk, n, p)
+                if side == "domain":
+                    din, dout = p, m; dgeo, rgeo = eg, m; npar = eg.par_dim; ndata = m
+                else:
+                    din, dout = n, p; dgeo, rgeo = n, eg; npar = n; ndata = eg.par_dim
+                F, J, lin, A = rand_forward(dout, din)
+                if mk in ("matrix", "fun+adjoint"):
+                    F, J = (lambda z, A=A: A @ z), (lambda z, A=A: A)
+                if mk == "matrix":
+                    mod = LinearModel(A, range_geometry=rgeo, domain_geometry=dgeo)
+                elif mk == "fun+adjoint":
+                    mod = LinearModel(lambda z, A=A: A @ z, adjoint=lambda y, A=A: A.T @ y, range_geometry=rgeo, domain_geometry=dgeo)
+                elif mk == "jacobian":
+                    mod = Model(F, rgeo, dgeo, jacobian=J)
+                else:
+                    mod = Model(F, rgeo, dgeo, gradient=lambda direction, wrt, J=J: direction @ J(wrt))
+                data = np.array([dy(rng, -2, 2) for _ in range(ndata)])
+                cv = rng.choice([0.5, 1.0, 2.0])
+                pgeo = mod.domain_geometry
+                if tgt == "multi":
+                    xx = D.Gaussian(np.zeros(npar), 2.0, geometry=pgeo, name="x")
+                    y1 = D.Gaussian(mod(xx), cv, name="y1")
+                    A2 = np.array([[rng.randint(-2, 2) for _ in range(din)]], dtype=float)
+                    y2 = D.Gaussian(LinearModel(A2, domain_geometry=pgeo)(xx), 0.5, name="y2")
+                    target = D.JointDistribution(xx, y1, y2)(y1=data, y2=np.array([dy(rng, -2, 2)]))
+                    if fd:
+                        for dens in target._densities:
+                            dens.enable_FD(1e-7)
+                else:
+                    lik = D.Gaussian(mod, cv).to_likelihood(data)
+                    if fd:
+                        lik.enable_FD(1e-7)
+                    target = lik if tgt == "likelihood" else D.Posterior(lik, D.Gaussian(np.zeros(npar), 2.0, geometry=pgeo))
+                xs = np.array([dy(rng, -1.5, 1.5, 4) for _ in range(npar)])
+                l0 = float(np.asarray(target.logd(xs)).ravel()[0])
+        except Exception as e:  # noqa
+            ctx.note(f"expansion case refused at construction/logd {desc}: {e!r}"[:200]); continue
+        st, exc, val = classify(lambda: target.gradient(xs), npar)
+        bump(f"expansion:{side}:{gk}:{st}")
+        key = f"expansion:{side}:{gk}:{mk}:{tgt}:{'fd' if fd else 'closed'}"
+        # decision table: domain expansion = non-identity geometry without gradient; range expansion = range not identity
+        pk = {"likelihood": "none", "posterior": "gaussian", "multi": "twolik"}[tgt]
+        exp = POST[(1, "nonid" if side == "domain" else "id", 1 if side == "domain" else 0, 1, int(fd), pk, 1)]
+        exp = "value" if exp == "value-fd" else exp
+        if fd and exp == "value" and st == "raise":
+            ctx.note(f"FD path refused inside the geometry at {desc}: {exc}"); continue   # fun2par/par2fun internals: not modelled
+        if st != exp:
+            ctx.disagree(key, desc, exp, f"{st}({exc})", "status differs from the decision table (expansion geometry must be refused)")
+        if st == "value":
+            f_logd = lambda z, target=target: float(np.asarray(target.logd(z)).ravel()[0])
+            oracle_value(ctx, key, desc, f_logd, val, xs, tol=(2e-4 if fd else ORTOL), in_support=True)
+        elif st in ("none", "not-vector", "nan"):
+            ctx.fail(key, desc, "refusal (or the derivative)", st, "neither a gradient vector nor a refusal")
